@@ -11,7 +11,9 @@ BPMS = [60.0, 90.0, 100.0, 120.0, 150.0, 173.5, 180.0, 200.0, 240.0, 87.25, 300.
 MULTS = [1.0, 0.5, 2.0, 1.25, 0.1, 10.0, -1.0, 0.75, 3.0]
 STRS = ["", "a.wav", "hit.ogg", "clap1.wav", "x y.wav", "s.wav"]
 BYTES = [b"", b"a.wav", b"kick.ogg", b"snare.wav", b"01"]
-KEYSOUNDS = [[], [], [], ["a"], ["a", "b"]]
+KEYSOUNDS = [[], [], [], ["a"], ["a", "b"],
+             # the format's own shape: records with a sample index and a volume (any number: the game clamps, a file need not)
+             [{"Sample": 1, "Volume": 100}], [{"Sample": 2, "Volume": 100.5}, {"Sample": 3, "Volume": 150}], [{"Sample": 1, "Volume": -5}]]
 
 
 def pick_offset(r: random.Random, present=()):
@@ -59,7 +61,9 @@ def gen_field(r: random.Random, name: str, keys: int = 4, present=()):
     if name == "kiai":
         return r.random() < 0.3
     if name == "keysounds":
-        return list(r.choice(KEYSOUNDS))
+        import copy
+
+        return copy.deepcopy(r.choice(KEYSOUNDS))  # records are mutable: never hand out the pool's own objects
     if name == "sample":
         return r.choice(BYTES)
     raise KeyError(name)
